@@ -4,6 +4,7 @@ mod c03;
 mod c37;
 mod exprgen;
 mod progen;
+mod strgen;
 mod tables;
 
 use vh_common::{Args, Report};
